@@ -448,10 +448,10 @@ SCENARIO(v1_stop_spawn) {
 
 SCENARIO(v0_complete) {
   World<V0> w(2, 1, 3);
-  int t1 = rt::spawn([&] { w.spawn_detached(0); w.fire(0); });
-  int t2 = rt::spawn([&] { w.spawn_detached(1); w.fire(1); });
+  w.spawn_detached(0);
+  int t1 = rt::spawn([&] { w.spawn_detached(1); w.fire(1); w.fire(0); });
   w.join(0);
-  rt::join(t1); rt::join(t2);
+  rt::join(t1);
   w.finish();
 }
 
@@ -461,6 +461,17 @@ SCENARIO(v0_cleanup) {
   int t1 = rt::spawn([&] { w.fire(0); });
   w.cleanup(0);
   rt::join(t1);
+  w.finish();
+}
+
+// two closers: request_stop() on T2, complete() on T0
+SCENARIO(v0_stop_join) {
+  World<V0> w(1, 1, 3);
+  w.spawn_detached(0);
+  int t1 = rt::spawn([&] { w.fire(0); });
+  int t2 = rt::spawn([&] { w.request_stop(); });
+  w.join(0);
+  rt::join(t1); rt::join(t2);
   w.finish();
 }
 
